@@ -130,6 +130,7 @@ func (tf *TraceFile) WriteTrace(meta map[string]any, tr *Trace) {
 	for _, e := range tr.Evts {
 		tf.line(e)
 	}
+	tf.w.Flush() // a later run may kill the process (library panic, deadlock): what was observed so far stays usable
 	tf.N++
 }
 
